@@ -200,7 +200,7 @@ PROPS = {
         "modelled": ["Scheduler::run_once election (src/scheduler/control.rs) as a CAS on `started`; the block body is one abstract step"],
         "assumptions": ["compare_exchange on `started` is atomic", "every public entry point goes through run_once (exercised: all three entry points in every position of the call sequence)"],
         "partial": ["the CAS order of racing callers is not observed (no hook inside run_once): the replayed model run orders the winner first, which is the only order the model admits"],
-        "explanation": "Theorems one_winner / returned_implies_one_winner / losers_touch_nothing / untouched_before_execute over all interleavings of any number of callers.",
+        "explanation": "Theorems one_winner / returned_implies_one_winner / losers_touch_nothing / untouched_before_execute over all interleavings of any number of callers; split_election_elects_two / split_election_sequential_ok: an election made of a load and a later store elects two racing callers (block applied twice) while successive calls are still refused - the shape the tight-race phase looks for.",
     },
     "C15": {
         "lean_modules": ["Props.C15", "Props.C02"],
